@@ -77,7 +77,7 @@ func init() {
 			CrashIsViolation: id == "C08" || id == "C05", // a node that crashes on a forged block has not rejected it
 			Assumptions:      netsimAssume, Real: netsimReal, Stubbed: netsimStubbed, DesignRef: "4.1",
 			LevelText: "seeded exploration of chains of several heights in which Byzantine proposers inject forged candidate blocks into a running validator cluster (import happens inside the real consensus/ block-manager path, under message loss, duplication and reordering); acceptance is observed on the wire; evidence over the implemented forgery menu and sampled schedules, not proof",
-			LevelNote: "forgery menu is finite (listed in DESIGN.md 4.1); the fast-sync entry path is not driven; acceptance is inferred from non-nil votes of correct validators (a vote for a block is only cast after its import succeeded)",
+			LevelNote: "forgery menu is finite (listed in DESIGN.md 4.1); the fast-sync entry path is driven by profile fastsync (a late-booting validator that can only reach a lying Byzantine fast-sync server: forged proofs, sibling blocks, block parts withheld so that it waits in the commit step); for proposed blocks acceptance is inferred from non-nil votes of correct validators (a vote for a block is only cast after its import succeeded)",
 			Technique: "deterministic simulation with Byzantine proposers (forged blocks) and network fault injection, independent certificate/field verifier as oracle, tape minimisation and replay",
 		})
 	}
